@@ -15,6 +15,8 @@ use crate::groups::{AffineG, GroupParams, G as IG, G1Params, G2Params};
 use crate::u256::U256;
 use crate::u512::U512;
 use crate::*;
+#[allow(unused_imports)]
+use alloc::{vec, vec::Vec};   // for the unit tests that Kani's concrete playback injects
 
 const FQ: [u64; 4] = [0xE56F9B27E351457D, 0x21F2934B1A7AEEDB, 0xD603AB4FF58EC745, 0xB640000002A3A6F1];
 const FR: [u64; 4] = [0xE56EE19CD69ECF25, 0x49F2934B18EA8BEE, 0xD603AB4FF58EC744, 0xB640000002A3A6F1];
@@ -800,7 +802,9 @@ fn fq_to_big_endian_total() {
 }
 
 // ------------------------------------------------------------------------------------------------
-// C07 (thorough): canonicity of the Montgomery multiplier, squarer and interleaved sum of products on the real code
+// Canonicity of the Montgomery multiplier, squarer and interleaved sum of products on the real code.
+// NOT part of any check: each of these exceeded 3000 s of CBMC time here; canonicity (res < m) for all inputs is a
+// postcondition of the Verus obligations mul / square / sum_of_products instead.  Kept for reference only.
 
 #[kani::proof]
 #[kani::unwind(7)]
